@@ -236,7 +236,7 @@ func H_L1_Free() {
 		N = 3
 	}
 	open := opens[zv.Choose(len(opens))]
-	n := zv.Choose(N+1)
+	n := zv.Choose(N + 1)
 	src := make([]rune, n+1)
 	src[0] = open
 	for k := 1; k <= n; k++ {
